@@ -112,10 +112,10 @@ type Op struct {
 	SQL  string
 }
 
-// Sched lets a cooperative scheduler own every memdb scheduling point.
+// Sched is told about every statement-level entry point (server lock not held). Lock waits are real waits on the
+// server's condition variable (or immediate timeouts with SequentialWaits); a scheduler sees them as blocked goroutines.
 type Sched interface {
-	Point(desc string)                    // called at statement-level entry points (server lock not held)
-	Block(desc string, ready func() bool) // park the caller until ready() is true (server lock not held)
+	Point(desc string)
 }
 
 type Server struct {
@@ -410,15 +410,7 @@ func (s *Server) acquire(tx *txn, name string) error {
 			}
 		}
 		tx.waits = owner
-		if s.Sched != nil {
-			s.mu.Unlock()
-			s.Sched.Block("lock "+strings.ReplaceAll(name, "\x1e", "/"), func() bool {
-				s.mu.Lock()
-				defer s.mu.Unlock()
-				o := s.locks[name]
-				return o == nil || o == tx
-			})
-			s.mu.Lock()
+		if false {
 		} else if s.SequentialWaits {
 			tx.waits = nil
 			s.LockTimeouts++
